@@ -499,40 +499,36 @@ def rule_R7t(ck):
 
 def rule_R8(ck):
     repo = ck.repo
-    fn = repo.func("types::Symbol._resolve")
-    # values derived from extern_symbols_mapping: names assigned from expressions mentioning it (transitively)
-    tainted = set()
-    changed = True
-    while changed:
-        changed = False
-        for n in walk_local(fn):
-            if isinstance(n, ast.Assign):
-                names = [m.id for t in n.targets for m in ast.walk(t) if isinstance(m, ast.Name) and isinstance(m.ctx, ast.Store)]   # also tuple targets
-                src = {m.id for m in ast.walk(n.value) if isinstance(m, ast.Name)}
-                attrs = {m.attr for m in ast.walk(n.value) if isinstance(m, ast.Attribute)}
-                if ("extern_symbols_mapping" in attrs or src & tainted) and set(names) - tainted:
-                    tainted.update(names)
-                    changed = True
-    rets = [r for r in walk_local(fn) if isinstance(r, ast.Return) and r.value is not None
-            and ({m.id for m in ast.walk(r.value) if isinstance(m, ast.Name)} & tainted or "extern_symbols_mapping" in {m.attr for m in ast.walk(r.value) if isinstance(m, ast.Attribute)})]
-    if not tainted:
+    # Symbol._resolve and the private helpers only it reaches (a lookup split into methods is still the lookup)
+    family = ["types::Symbol._resolve"] + sorted(role_helpers(repo, LAZY))
+    any_tainted = False
+    for fq in family:
+        fn = repo.func(fq)
+        # values derived from extern_symbols_mapping: names assigned from expressions mentioning it (transitively)
+        tainted = set()
+        changed = True
+        while changed:
+            changed = False
+            for n in walk_local(fn):
+                if isinstance(n, ast.Assign):
+                    names = [m.id for t in n.targets for m in ast.walk(t) if isinstance(m, ast.Name) and isinstance(m.ctx, ast.Store)]   # also tuple targets
+                    src = {m.id for m in ast.walk(n.value) if isinstance(m, ast.Name)}
+                    attrs = {m.attr for m in ast.walk(n.value) if isinstance(m, ast.Attribute)}
+                    if ("extern_symbols_mapping" in attrs or src & tainted) and set(names) - tainted:
+                        tainted.update(names)
+                        changed = True
+        rets = [r for r in walk_local(fn) if isinstance(r, ast.Return) and r.value is not None and not (isinstance(r.value, ast.Constant) and r.value.value is None)
+                and ({m.id for m in ast.walk(r.value) if isinstance(m, ast.Name)} & tainted or "extern_symbols_mapping" in {m.attr for m in ast.walk(r.value) if isinstance(m, ast.Attribute)})]
+        if tainted:
+            any_tainted = True
+        for r in rets:
+            facts = flow.facts_before(fn, r, gen_calls({"not_ready"}))
+            ck.instance(("export-return", fq, r.lineno), {"return": norm_text(r), "dominated by": sorted(facts) if facts is not None else "unreachable"}, fn=fq)
+            if facts is not None and "not_ready" not in facts:
+                ck.violation(r, "a binding found through the export map is accepted while the file's own definitions may still follow: 'x' used before the file's own 'x = ...' binds to another file's exported x, used after it binds to the own one",
+                             construct="export binding before not_ready")
+    if not any_tainted:
         raise Unknown("Symbol._resolve no longer consults extern_symbols_mapping")
-    for r in rets:
-        facts = flow.facts_before(fn, r, gen_calls({"not_ready"}))
-        ck.instance(("export-return", r.lineno), {"return": norm_text(r), "dominated by": sorted(facts) if facts is not None else "unreachable"}, fn="types::Symbol._resolve")
-        if facts is not None and "not_ready" not in facts:
-            ck.violation(r, "a binding found through the export map is accepted while the file's own definitions may still follow: 'x' used before the file's own 'x = ...' binds to another file's exported x, used after it binds to the own one",
-                         construct="export binding before not_ready")
-    if not rets:
-        ck.unknown("no return of an exported binding found")
-    # own-file candidates come before the export map
-    own = [n for n in walk_local(fn) if isinstance(n, ast.Return) and n not in rets and n.value is not None and "symbols" in {m.attr for m in ast.walk(n.value) if isinstance(m, ast.Attribute)}]
-    ck.instance("own-first", {"own-scope returns": len(own)}, fn="types::Symbol._resolve")
-    if own and rets and min(r.lineno for r in rets) < min(o.lineno for o in own):
-        ck.violation(rets[0], "the export map is consulted before the file's own symbols", construct="export before own")
-    if not own:
-        ck.unknown("own-scope lookup in Symbol._resolve not recognised")
-
 
 DEFINERS = {"compiler::Compiler.compile_label", "compiler::Compiler.compile_assignment", "compiler::Compiler.declare_external_symbol"}
 LAZY = {"types::Symbol._resolve"}
@@ -609,12 +605,30 @@ def definer_helpers(repo):
     return out
 
 
+def role_helpers(repo, roots):
+    """private helpers reached only from functions of one role (and from each other) inherit that role"""
+    from ..rules import guards
+    out = set()
+    changed = True
+    while changed:
+        changed = False
+        for q, fn in repo.all_functions():
+            if q in roots or q in out or not isinstance(fn, ast.FunctionDef) or not fn.name.startswith("_") or fn.name.startswith("__"):
+                continue
+            callers = {c for c, _ in guards.callers_of(repo, fn)}
+            if callers and all(c in roots or c in out for c in callers):
+                out.add(q)
+                changed = True
+    return out
+
+
 def rule_R9(ck):
     repo = ck.repo
     reads = table_reads(repo)
     helpers = definer_helpers(repo)
+    lazy_h, final_h = role_helpers(repo, LAZY), role_helpers(repo, FINAL)
     for q, fn, n in reads:
-        cls = "definer" if q in DEFINERS or q in helpers else "lazy" if q in LAZY else "final" if q in FINAL else "eager"
+        cls = "definer" if q in DEFINERS or q in helpers else "lazy" if q in LAZY or q in lazy_h else "final" if q in FINAL or q in final_h else "eager"
         ck.instance(("read", q, n.lineno), {"function": q, "read": norm_text(n._parent)[:80], "class": cls}, fn=q)
         if cls == "definer":
             # must be a duplicate guard: the value only decides a test or is shown in the diagnostic
@@ -685,7 +699,7 @@ def run(ck):
     ck.run_rule("C03.R6", "operators defer on unknown operands and later apply the same operation", 9, rule_R6)
     ck.run_rule("C03.R7", "LinearPolynomial algebra as polynomial normal forms", 18, rule_R7)
     ck.run_rule("C03.R7t", "unknowns cancel through the operator tokens + - * (not forced by the operators)", 6, rule_R7t)
-    ck.run_rule("C03.R8", "no early commitment to an exported binding", 2, rule_R8)
+    ck.run_rule("C03.R8", "no early commitment to an exported binding", 1, rule_R8)
     ck.run_rule("C03.R9", "symbol tables are read by duplicate guards, lazily, or finally", 8, rule_R9)
     ck.run_rule("C02.R7w", "unused definitions are evaluated too (their errors do not depend on use order)", 1, c02.rule_closing_wait)
     ck.run_rule("G11.res", "operand encoders' results that may still be unevaluated (branch offsets, immediates) are only combined with + - * or forced with wait()", 2, escape.rule_G11_results)
